@@ -121,6 +121,26 @@ static uint8_t *dec_outbuf(size_t need)
 	return DEC_OUT;
 }
 
+/* optional dump of the valid streams (input of the C09 substitution space): VF_DUMP=<file>, every VF_DUMP_STRIDE-th stream */
+static void dec_dump(const char *method, const uint8_t *in, size_t n)
+{
+	static FILE *f;
+	static int init, stride = 1;
+	static long count;
+	size_t i;
+	if (!init) {
+		const char *p = getenv("VF_DUMP");
+		init = 1;
+		if (p) f = fopen(p, "a");
+		if (getenv("VF_DUMP_STRIDE")) stride = atoi(getenv("VF_DUMP_STRIDE"));
+		if (stride < 1) stride = 1;
+	}
+	if (!f || n == 0 || n > 80 || (count++ % stride) != 0) return;
+	fprintf(f, "%s ", method);
+	for (i = 0; i < n; ++i) fprintf(f, "%02x", in[i]);
+	fprintf(f, "\n");
+}
+
 /* decode 'in' with declared length = elen and require exactly 'exp'.  Returns 1 when equal. */
 static int dec_expect(const char *site, const char *method, const uint8_t *in, size_t n,
                       const uint8_t *exp, size_t elen, int chunk)
@@ -128,7 +148,9 @@ static int dec_expect(const char *site, const char *method, const uint8_t *in, s
 	dec_result r;
 	/* exact-size heap buffer so that the sanitizer sees any write past the declared length */
 	uint8_t *out = malloc(elen + 2);
-	size_t got = dec_run(method, in, n, elen, out, 0, chunk, &r);
+	size_t got;
+	dec_dump(method, in, n);
+	got = dec_run(method, in, n, elen, out, 0, chunk, &r);
 	int ok = 1;
 	if (!r.created) {
 		vf_viol(site, "method=%s decoder could not be created", method);
